@@ -502,14 +502,34 @@ var earlierCalls int64
 
 // EarlierCall makes one library call of another kind in front of the call under observation (a failed
 // parse of a long input, a long successful run, a file parse cut off by a read error, a runtime error deep in
-// nested blocks, an Unmarshal of wide blocks that succeeds or fails, a truncated load, a failed Dump): whatever
+// nested blocks, an Unmarshal of wide blocks that succeeds or fails, a truncated load, a failed Dump, a run with all
+// introspection options on, a Bind of a hand-built binding into a target that does not fit): whatever
 // the library keeps from one call to the next must not show in the next call. Which one is made is
 // determined by the key (normally the input of the observed call), so a case replays the same way.
 func EarlierCall(key uint64) {
 	earlierCalls++
 	lines := 70 + int(key>>8)%260
 	var b strings.Builder
-	switch key % 8 {
+	switch key % 10 {
+	case 8: // a run with disassembly, trace and statistics on (tables built on first use), ending in a runtime error
+		b.WriteString("var a = 1\ndef t \"n\" { x = a + 2 * 3; y = not x or \"s\"; def in { z = 1.5 } }\nbind t -> struct\nbind t:all -> slice\n")
+		for k := 0; k < lines/8; k++ {
+			fmt.Fprintf(&b, "print %d < %d and %d.5 >= 2 or nil\n", k, k+1, k)
+		}
+		b.WriteString("print 1 - \"s\"\n")
+		protect(func() {
+			bcl.Interpret([]byte(b.String()), bcl.OptLogger(io.Discard), bcl.OptOutput(io.Discard), bcl.OptDisasm(true), bcl.OptTrace(true), bcl.OptStats(true))
+		})
+	case 9: // Bind of a hand-built binding: wide blocks with values the VM never produces, into a target that does not fit
+		blk := bcl.Block{Type: "earlier_target", Name: "n", Fields: map[string]any{}}
+		for k := 0; k < 12+int(key>>8)%20; k++ {
+			blk.Fields[fmt.Sprintf("%c", 'a'+k%13)+strings.Repeat("_", k/13)] = []any{k, int64(k), "s", nil, 1.5, []int{k}}[k%6]
+		}
+		blk.Fields["sub"] = bcl.Block{Type: "sub", Fields: map[string]any{"a": 1, "zz": true}}
+		var t earlierTarget
+		var ts []earlierTarget
+		protect(func() { bcl.Bind(&t, bcl.StructBinding{Value: blk}) })
+		protect(func() { bcl.Bind(&ts, bcl.SliceBinding{Value: []bcl.Block{blk, blk}}) })
 	case 0: // a failed parse of a long input (errors at both ends)
 		b.WriteString("print )\n")
 		for k := 0; k < lines; k++ {
@@ -540,7 +560,7 @@ func EarlierCall(key uint64) {
 		protect(func() { bcl.Interpret([]byte(b.String()), bcl.OptLogger(io.Discard), bcl.OptOutput(io.Discard)) })
 	case 4, 5: // Unmarshal of wide blocks, succeeding (4) or failing at the last field (5)
 		b.WriteString("def earlier_target \"n\" { a=1; b=2; c=3; d=4; e=5; f=6; g=7; h=8; i=9; j=10; k=11; l=12\n def sub { a=1; b=2; c=3; d=4; e=5; f=6; g=7; h=8; i=9; j=10 }\n")
-		if key%8 == 5 {
+		if key%10 == 5 {
 			b.WriteString("m = \"not an int\" ")
 		}
 		b.WriteString("}\nbind earlier_target -> struct\n")
@@ -557,7 +577,7 @@ func EarlierCall(key uint64) {
 		if p == nil {
 			return
 		}
-		if key%8 == 7 {
+		if key%10 == 7 {
 			protect(func() { p.Dump(&failingWriter{limit: 40 + int(key>>8)%400}) })
 			return
 		}
